@@ -1,13 +1,11 @@
 /-
   C13 — executable instances of the two codecs the model is parametric in, used by the driver:
 
-  * `decCodec`   : `strconv.FormatFloat(x,'f',-1,64)` on values with a finite decimal expansion
-                   (every float64 the harness generates: dyadic with ≤ 15 significant digits) and a
-                   decimal `ParseFloat`;
-  * `miniNewick` : `Node.Newick`/`Tree.Newick` (tree/node.go:232, tree/tree.go:413) and a port of
-                   `newick.Parser.Parse/parseIter/consumeComment` + `Scanner.Scan` (io/newick).
-                   Property C01 owns the verified model of that code; this port only has to agree with
-                   the real parser on the texts the C13 harness produces (checked on every case).
+  * `decCodec` : `strconv.FormatFloat(x,'f',-1,64)` on values with a finite decimal expansion (every
+                 float64 the harness generates: dyadic with ≤ 15 significant digits) and a decimal
+                 `ParseFloat`, for the numbers in PhyloXML text;
+  * `c01Go`    : the Newick reader/writer = property C01's verified model of io/newick and Node.Newick
+                 (`Gotree.Newick.parse` / `Gotree.Newick.write`) with its Go-like float codec.
   Core Lean only.
 -/
 import Gotree.Model.C13
@@ -64,258 +62,13 @@ def parseDec (s : Txt) : Option Rat :=
     let v : Rat := if e ≥ 0 then mant * ((10 ^ e.toNat : Nat) : Rat) else mant / ((10 ^ (-e).toNat : Nat) : Rat)
     some (if neg then -v else v)
 
-def upperTxt (s : Txt) : Txt := s.map Char.toUpper
-
-/-- does `strconv.ParseFloat(s, 64)` accept `s` (decimal forms and inf/infinity/nan; hexadecimal
-    floats and digit-separating underscores are not followed by this port) -/
-def isFloatGo (s : Txt) : Bool :=
-  (parseDec s).isSome ||
-  (let (_, r) := splitSign s
-   let u := upperTxt r
-   u == "INF".toList || u == "INFINITY".toList) ||
-  upperTxt s == "NAN".toList
-
 def decCodec : NumCodec := ⟨fmtRat, parseDec⟩
 
-/- ## Newick writer (Node.Newick) -/
+/-- the number codec the driver runs for PhyloXML: C01's Go-like model of FormatFloat / ParseFloat -/
+def goNum : NumCodec :=
+  ⟨Newick.goCodec.fmt, fun s => if Newick.goCodec.isFloat s then Newick.goCodec.parse s else none⟩
 
-mutual
-/-- `n.Newick(parent, buf)` for a node that has a parent -/
-def nwNode : T → Txt
-  | .node d _ k => (match k with | [] => [] | _ :: _ => '(' :: nwKids k true ++ [')']) ++ d.name.toList
-/-- the loop over the children: `first` = no child written yet -/
-def nwKids : Kids → Bool → Txt
-  | [], _ => []
-  | (e, t) :: r, first =>
-    (if first then [] else [',']) ++ nwNode t ++
-    (if e.sup != NIL && t.name == "" then fmtRat e.sup ++ (if e.pval != NIL then '/' :: fmtRat e.pval else []) else []) ++
-    joinMap (fun c => '[' :: c.toList ++ [']']) t.d.comments ++
-    (if e.len != NIL then ':' :: fmtRat e.len else []) ++
-    joinMap (fun c => '[' :: c.toList ++ [']']) e.comments ++
-    nwKids r false
-end
-
-/-- `Tree.Newick()`: the root (no parent) gets parentheses as soon as it has a neighbour
-    (`len(n.neigh) > 1 || parent == nil`) -/
-def nwTree (t : T) : Txt :=
-  (match t.kids with
-   | [] => []
-   | _ => '(' :: nwKids t.kids true ++ [')']) ++ t.name.toList ++
-  joinMap (fun c => '[' :: c.toList ++ [']']) t.d.comments ++ [';']
-
-/- ## Newick parser (port of io/newick) -/
-
-inductive Tk where
-  | eof | ws | ident | numeric | openpar | closepar | startlen | openbrack | closebrack | newsibling | eot | none
-  deriving DecidableEq, Repr, BEq
-
-def isIdentC (ign : Bool) (c : Char) : Bool :=
-  c != '[' && c != ']' && c != '(' && c != ')' && c != ',' && c != ':' && (ign || c != ';')
-
-/-- `Scanner.Scan(ignoreSemiColumn)`: kind, literal, rest -/
-def scanTok (ign : Bool) : Txt → Tk × Txt × Txt
-  | [] => (.eof, [], [])
-  | c :: r =>
-    if isNewickWs c then
-      let (w, r') := r.span isNewickWs
-      (.ws, c :: w, r')
-    else if c == '(' then (.openpar, [c], r)
-    else if c == ')' then (.closepar, [c], r)
-    else if c == '[' then (.openbrack, [c], r)
-    else if c == ']' then (.closebrack, [c], r)
-    else if c == ',' then (.newsibling, [c], r)
-    else if c == ';' && !ign then (.eot, [c], r)
-    else if c == ':' then (.startlen, [c], r)
-    else
-      let (w, r') := r.span (isIdentC ign)
-      let lit := c :: w
-      (if isFloatGo lit then .numeric else .ident, lit, r')
-
-def scanNoWs (s : Txt) : Tk × Txt × Txt :=
-  match scanTok false s with
-  | (.ws, _, r) => scanTok false r
-  | x => x
-
-/-- `consumeComment` after the '[': the literals up to the matching ']' (scanned with
-    ignoreSemiColumn = true); `none` on EOF -/
-def comment : Nat → Txt → Txt → Option (Txt × Txt)
-  | 0, _, _ => none
-  | f + 1, s, acc =>
-    match scanTok true s with
-    | (.closebrack, _, r) => some (acc, r)
-    | (.eof, _, _) => none
-    | (_, lit, r) => comment f r (acc ++ lit)
-
-/-- a node on the parser's stack: its data, the branch to its parent, its children so far -/
-structure Frame where
-  d : NodeD
-  e : Option EdgeD
-  kids : Kids := []
-
-def Frame.tree (f : Frame) : T := .node f.d 0 f.kids
-
-structure PS where
-  stack : List Frame := []
-  /-- the tree whose root frame was popped (`t.root` stays set) -/
-  done : Option T := none
-  level : Int := 0
-  prev : Tk := .none
-  nedges : Nat := 0
-
-/-- `nodeStack.Pop()` followed by `Head()`: the finished node is already attached to its parent in Go;
-    here it is attached now (same order: siblings are created and popped alternately) -/
-def pop (st : PS) : Option PS :=
-  match st.stack with
-  | [] => none
-  | [f] => some { st with stack := [], done := some f.tree }
-  | f :: p :: r => some { st with stack := { p with kids := p.kids ++ [(f.e.getD EdgeD.blank, f.tree)] } :: r }
-
-def setHead (st : PS) (f : Frame) : PS :=
-  match st.stack with
-  | [] => st
-  | _ :: r => { st with stack := f :: r }
-
-def splitOnSlash (s : Txt) : List Txt := (String.ofList s).splitOn "/" |>.map String.toList
-
-/-- `parseIter`: returns the final state at EOT; `none` = some error (EOF included, see `Parse`) -/
-def parseIter : Nat → Txt → PS → Option PS
-  | 0, _, _ => none
-  | fuel + 1, s, st =>
-    match scanNoWs s with
-    | (.openpar, _, r) =>
-      (match st.stack with
-       | [] =>
-         if st.level > 0 then none else
-         parseIter fuel r { st with stack := [{ d := ⟨"", []⟩, e := none }], done := none, level := st.level + 1, prev := .openpar }
-       | _ :: _ =>
-         if st.level == 0 then none else
-         parseIter fuel r { st with stack := { d := ⟨"", []⟩, e := some { EdgeD.blank with id := st.nedges } } :: st.stack,
-                                    nedges := st.nedges + 1, level := st.level + 1, prev := .openpar })
-    | (.closepar, _, r) =>
-      (match pop { st with prev := .closepar, level := st.level - 1 } with
-       | none => none
-       | some st' => parseIter fuel r st')
-    | (.openbrack, _, r) =>
-      (match comment (r.length + 1) r [] with
-       | none => none
-       | some (c, r') =>
-         let cs := String.ofList c
-         match st.stack with
-         | [] => none
-         | f :: _ =>
-           if st.prev == .startlen then
-             (match f.e with
-              | some e => parseIter fuel r' { setHead st { f with e := some { e with comments := e.comments ++ [cs] } } with prev := .closebrack }
-              | none => parseIter fuel r' { setHead st { f with d := { f.d with comments := f.d.comments ++ [cs] } } with prev := .closebrack })
-           else if st.prev == .closepar || st.prev == .ident || st.prev == .numeric || st.prev == .closebrack then
-             parseIter fuel r' { setHead st { f with d := { f.d with comments := f.d.comments ++ [cs] } } with prev := .closebrack }
-           else none)
-    | (.closebrack, _, _) => none
-    | (.startlen, _, r) =>
-      (match scanNoWs r with
-       | (.numeric, lit, r') =>
-         (match st.stack with
-          | f :: _ =>
-            if st.level != 0 then
-              (match f.e with
-               | none => none
-               | some e =>
-                 if e.len != NIL then none else
-                 match parseDec lit with
-                 | none => none
-                 | some q => parseIter fuel r' { setHead st { f with e := some { e with len := q } } with prev := .startlen })
-            else parseIter fuel r' { st with prev := .startlen }
-          | [] => if st.level == 0 then parseIter fuel r' { st with prev := .startlen } else none)
-       | _ => none)
-    | (.newsibling, _, r) =>
-      (match pop st with
-       | none => none
-       | some st' => parseIter fuel r { st' with prev := .newsibling })
-    | (.eot, _, _) => if st.level != 0 then none else some st
-    | (.eof, _, _) => none
-    | (.ws, _, _) => none
-    | (.none, _, _) => none
-    | (k, lit, r) =>
-      -- IDENT or NUMERIC
-      if st.prev == .closepar then
-        (match st.stack with
-         | [] => if k == .numeric then parseIter fuel r st else none
-         | f :: _ =>
-           if k == .numeric then
-             (match f.e with
-              | some e =>
-                if st.level == 0 then parseIter fuel r st else
-                (match parseDec lit with
-                 | none => none
-                 | some q => parseIter fuel r (setHead st { f with e := some { e with sup := q } }))
-              | none => parseIter fuel r st)
-           else
-             let two : Option (Rat × Rat) := match splitOnSlash lit, f.e with
-               | [a, b], some _ => (match parseDec a, parseDec b with
-                                     | some x, some y => some (x, y)
-                                     | _, _ => none)
-               | _, _ => none
-             match two, f.e with
-             | some (x, y), some e => parseIter fuel r (setHead st { f with e := some { e with sup := x, pval := y } })
-             | _, _ => parseIter fuel r (setHead st { f with d := { f.d with name := String.ofList lit } }))
-      else
-        if st.prev != .openpar && st.prev != .newsibling then none else
-        match st.stack with
-        | [] => none
-        | _ :: _ =>
-          parseIter fuel r { st with stack := { d := ⟨String.ofList lit, []⟩, e := some { EdgeD.blank with id := st.nedges } } :: st.stack,
-                                     nedges := st.nedges + 1, prev := k }
-
-/-- attach every frame still on the stack to the one below: the tree as Go holds it at that point -/
-def collapseGo : List Frame → Option (EdgeD × T) → Option T
-  | [], acc => acc.map (·.2)
-  | f :: r, acc =>
-    let f' : Frame := match acc with
-      | some et => { f with kids := f.kids ++ [et] }
-      | none => f
-    collapseGo r (some (f'.e.getD EdgeD.blank, f'.tree))
-
-def collapse (l : List Frame) : Option T := collapseGo l none
-
-def trimStr (s : String) : String := String.ofList (Px.trim s.toList)
-
-mutual
-/-- `tip.SetName(strings.TrimSpace(tip.Name()))` on the leaves -/
-def trimLeaves : T → T
-  | .node d p k => (match k with
-    | [] => .node { d with name := trimStr d.name } p []
-    | _ :: _ => .node d p (trimLeavesL k))
-def trimLeavesL : Kids → Kids
-  | [] => []
-  | (e, t) :: r => (e, trimLeaves t) :: trimLeavesL r
-end
-
-/-- `newick.NewParser(r).Parse()` -/
-def nwParse (s : Txt) : Option T :=
-  -- optional comment in front of the tree, then "("
-  let s1? : Option Txt := match scanNoWs s with
-    | (.openbrack, _, r) => (comment (r.length + 1) r []).map (·.2)
-    | _ => some s
-  match s1? with
-  | none => none
-  | some s1 =>
-    match scanNoWs s1 with
-    | (.openpar, _, _) =>
-      -- where the "(" starts: drop the white space in front of it
-      let s2 := s1.dropWhile isNewickWs
-      (match parseIter (s2.length + 2) s2 {} with
-       | none => none
-       | some st =>
-         let t? := match st.stack with
-           | [] => st.done
-           | l => collapse l
-         t?.map fun t =>
-           let t := trimLeaves t
-           -- the root counts as a tip when it has exactly one neighbour
-           if t.kids.length == 1 then .node { t.d with name := trimStr t.d.name } t.ppos t.kids else t)
-    | _ => none
-
-def miniNewick : NewickCodec := ⟨nwTree, nwParse⟩
+/- ## the Newick codec -/
 
 /-- the verified Newick model of property C01 (`Gotree.Newick.parse` / `write`) as a `NewickCodec` -/
 def codecOf (C : Newick.Codec) : NewickCodec :=
